@@ -4,8 +4,13 @@ import Std.Data.HashSet
 /-
 drv_ants (properties C07, C08): monitor for virtual-time scenarios of the ants pool.
 
-script line:   n <N> [old] [park <site>:<ordinal>:<until>]* | <task> ; <task> ; ...
-  task      =  <g> <time> <T> <R> <discard 0/1> <cb 0/1> <beh>,<beh>,...
+script line:   <head> | <task> ; <task> ; ...
+  head      =  words:  n <N>  (= pool option WithSize(N))  |  popts <o>,<o>,…  pool option list, o = s<int> WithSize,
+               c0/c1 WithContextBuilder(nil / a builder returning one cancellable context)  |  basecancel <X>  that
+               context is cancelled at instant X  |  old  |  park <site>:<ordinal>:<until>
+  task      =  <g> <time> <opts> <beh>,<beh>,...        opts = "-" or a comma separated TaskOption LIST applied left to
+               right: t<int> WithTimeout, r<int> WithRetry, d0/d1 WithDiscardOnBusy, e0/e1 WithError(nil / callback)
+            |  <g> <time> <T> <R> <discard 0/1> <cb 0/1> <beh>,...   legacy form = t<T>,r<R>,d<discard>[,e1]
   beh       =  <dur>:<hon 0/1>:<val>:<errcode>     behaviour of the j-th handler invocation of that task
                 (runs `dur` ns then returns (val, errcode); errcode 0 = nil; a handler with hon=1 returns
                 (nil, E999) as soon as its ctx is done)
@@ -65,36 +70,80 @@ def parseBeh (s : String) : Option Beh :=
     | _, _, _, _ => none
   | _ => none
 
+def parseTOpt (s : String) : Option TOpt :=
+  let v := (s.drop 1).toString
+  if s.startsWith "t" then v.toInt?.map TOpt.timeout
+  else if s.startsWith "r" then v.toInt?.map TOpt.retry
+  else if s.startsWith "d" then v.toNat?.map (fun n => TOpt.discard (n != 0))
+  else if s.startsWith "e" then v.toNat?.map (fun n => TOpt.onError (n != 0))
+  else none
+
+def parseTOpts (s : String) : Option (List TOpt) :=
+  if s = "-" then some [] else (s.splitOn ",").mapM parseTOpt
+
+def parsePOpt (s : String) : Option POpt :=
+  let v := (s.drop 1).toString
+  if s.startsWith "s" then v.toInt?.map POpt.size
+  else if s.startsWith "c" then v.toNat?.map (fun n => POpt.ctxBuilder (n != 0))
+  else none
+
 def parseTask (s : String) : Option TaskSpec :=
   match words s with
+  | [g, tm, opts, behs] =>
+    match g.toNat?, tm.toNat?, parseTOpts opts, (behs.splitOn ",").mapM parseBeh with
+    | some g, some tm, some os, some bs => some { g := g, time := tm, opts := applyOptions os, behs := bs.toArray }
+    | _, _, _, _ => none
   | [g, tm, T, R, d, cb, behs] =>
     match g.toNat?, tm.toNat?, T.toInt?, R.toInt?, d.toNat?, cb.toNat? with
     | some g, some tm, some T, some R, some d, some cb =>
       match (behs.splitOn ",").mapM parseBeh with
-      | some bs => some { g := g, time := tm, opts := { timeout := T, retry := R, discard := d != 0, hasCb := cb != 0 },
-                          behs := bs.toArray }
+      | some bs =>
+        -- legacy form: each option applied once
+        some { g := g, time := tm,
+               opts := applyOptions ([.timeout T, .retry R, .discard (d != 0)] ++ (if cb != 0 then [.onError true] else [])),
+               behs := bs.toArray }
       | none => none
     | _, _, _, _, _, _ => none
   | _ => none
 
-def parseHead : List String → Option (Cfg × List Park)
-  | "n" :: n :: rest =>
-    match n.toNat? with
+structure Head where
+  popts : List POpt := []
+  old : Bool := false
+  parks : List Park := []
+  baseCancel : Option Nat := none
+
+def parseHeadWords : List String → Head → Option Head
+  | [], h => some { h with parks := h.parks.reverse }
+  | "n" :: n :: r, h =>
+    match n.toInt? with
+    | some n => parseHeadWords r { h with popts := h.popts ++ [.size n] }
     | none => none
-    | some n =>
-      let rec go : List String → Cfg → List Park → Option (Cfg × List Park)
-        | [], c, ps => some (c, ps.reverse)
-        | "old" :: r, c, ps => go r { c with old := true } ps
-        | "park" :: p :: r, c, ps =>
-          match p.splitOn ":" with
-          | [s, o, u] =>
-            match s.toNat?, o.toNat?, u.toNat? with
-            | some s, some o, some u => go r c ({ site := s, ord := o, until_ := u } :: ps)
-            | _, _, _ => none
-          | _ => none
-        | _, _, _ => none
-      go rest { N := n } []
-  | _ => none
+  | "popts" :: p :: r, h =>
+    match (p.splitOn ",").mapM parsePOpt with
+    | some ps => parseHeadWords r { h with popts := h.popts ++ ps }
+    | none => none
+  | "basecancel" :: x :: r, h =>
+    match x.toNat? with
+    | some x => parseHeadWords r { h with baseCancel := some x }
+    | none => none
+  | "old" :: r, h => parseHeadWords r { h with old := true }
+  | "park" :: p :: r, h =>
+    match p.splitOn ":" with
+    | [s, o, u] =>
+      match s.toNat?, o.toNat?, u.toNat? with
+      | some s, some o, some u => parseHeadWords r { h with parks := { site := s, ord := o, until_ := u } :: h.parks }
+      | _, _, _ => none
+    | _ => none
+  | _, _ => none
+
+/-- the pool's options are folded by the model's `applyPoolOptions`; a scripted cancellation of the base context only
+    matters if a caller-supplied context builder is in effect -/
+def parseHead (ws : List String) : Option (Cfg × List Park) :=
+  match parseHeadWords ws {} with
+  | none => none
+  | some h =>
+    let po := applyPoolOptions h.popts
+    some ({ N := po.size, old := h.old, baseCancelAt := if po.customCtx then h.baseCancel else none }, h.parks)
 
 def parseScen (line : String) : Option Scen :=
   match line.splitOn " | " with
